@@ -105,6 +105,9 @@ func roundTrip(t *tr.Writer, id int, g gen.Gen, v gen.Val, mode string, extra tr
 		rec["decerr"] = none(decErr)
 		rec["decpanic"] = none(decPanic)
 		rec["out"], rec["outfault"] = safeAbs(out.Elem())
+		if rec["outfault"] == "none" && decPanic == "" {
+			rec["itypes"] = ifaceTypes(v.V, out.Elem())
+		}
 		if len(b) <= 200 {
 			rec["bytes"] = string(b)
 		}
@@ -117,6 +120,93 @@ func roundTrip(t *tr.Writer, id int, g gen.Gen, v gen.Val, mode string, extra tr
 		rec["outfault"] = "none"
 	}
 	t.Emit(rec)
+}
+
+// ifaceTypes lists, for the interface{} positions of the original that hold a value of the type the
+// decoder's defaults give back for its tag, the dynamic type found at the same place of the decoded value
+// (the projection used for the value comparison makes pointers transparent, so it cannot tell *T from T)
+func ifaceTypes(a, b reflect.Value) (out []tr.Rec) {
+	out = []tr.Rec{}
+	defer func() { _ = recover() }()
+	budget := 400
+	seen := map[uintptr]bool{}
+	canonical := func(t reflect.Type) bool {
+		switch t.Kind() {
+		case reflect.Ptr:
+			// a struct type registered under its name: an object of that class in an interface{} is a *T
+			return t.Elem().Kind() == reflect.Struct && t.Elem().Name() != "" && hio.GetStructType(t.Elem().Name()) == t.Elem()
+		case reflect.Int, reflect.Float64:
+			return t.PkgPath() == ""
+		}
+		return t == reflect.TypeOf([]interface{}(nil)) || t == reflect.TypeOf(map[interface{}]interface{}(nil))
+	}
+	var walk func(a, b reflect.Value, path string)
+	walk = func(a, b reflect.Value, path string) {
+		if budget--; budget < 0 || !a.IsValid() || !b.IsValid() {
+			return
+		}
+		if a.Kind() == reflect.Interface {
+			if a.IsNil() {
+				return
+			}
+			bd := b
+			for bd.Kind() == reflect.Interface {
+				if bd.IsNil() {
+					return
+				}
+				bd = bd.Elem()
+			}
+			ad := a.Elem()
+			if canonical(ad.Type()) && !(ad.Kind() == reflect.Ptr && ad.IsNil()) {
+				out = append(out, tr.Rec{"path": path, "want": ad.Type().String(), "got": bd.Type().String()})
+			}
+			walk(ad, bd, path)
+			return
+		}
+		for a.Kind() == reflect.Ptr {
+			if a.IsNil() || seen[a.Pointer()] {
+				return
+			}
+			seen[a.Pointer()] = true
+			a = a.Elem()
+		}
+		for b.Kind() == reflect.Ptr || b.Kind() == reflect.Interface {
+			if b.IsNil() {
+				return
+			}
+			b = b.Elem()
+		}
+		switch a.Kind() {
+		case reflect.Struct:
+			if b.Kind() != reflect.Struct || a.Type() != b.Type() {
+				return
+			}
+			for i := 0; i < a.NumField(); i++ {
+				if a.Type().Field(i).PkgPath == "" {
+					walk(a.Field(i), b.Field(i), path+"."+a.Type().Field(i).Name)
+				}
+			}
+		case reflect.Slice, reflect.Array:
+			if b.Kind() != reflect.Slice && b.Kind() != reflect.Array {
+				return
+			}
+			for i := 0; i < a.Len() && i < b.Len() && i < 6; i++ {
+				walk(a.Index(i), b.Index(i), fmt.Sprintf("%s[%d]", path, i))
+			}
+		case reflect.Map:
+			if b.Kind() != reflect.Map || a.Type().Key() != b.Type().Key() || !a.Type().Key().Comparable() || a.Type().Key().Kind() == reflect.Interface {
+				return
+			}
+			for i, k := range a.MapKeys() {
+				if i >= 6 {
+					break
+				}
+				walk(a.MapIndex(k), b.MapIndex(k), fmt.Sprintf("%s{%v}", path, k))
+			}
+		}
+	}
+	walk(a, b, "")
+	return out
 }
 
 // fmtSpace builds the generators of a tier.
@@ -230,6 +320,9 @@ func runFmt(a Args, which string) tr.Summary {
 		for i, v := range g.Vals {
 			for _, mode := range []string{"simple", "ref"} {
 				id++
+				if id%40 == 1 {
+					dirtyPools()
+				}
 				Watch(id, tr.Rec{"shape": g.Name}, fmtCase{g.Name, v.Class, mode, i})
 				roundTrip(t, id, g, v, mode, tr.Rec{"input": fmtCase{g.Name, v.Class, mode, i}})
 				cells[g.Name+"|"+v.Class+"|"+mode] = true
